@@ -374,6 +374,28 @@ def consume_grouped_meta(api: str, src):
     return out, None
 
 
+def consume_flat_frames(api: str, src):
+    """The two-step call: get_options_and_frames(), then the flat parser fed with its result."""
+    from pyjelly.parse.ioutils import get_options_and_frames  # noqa: PLC0415
+
+    if api == "generic":
+        from pyjelly.integrations.generic.parse import parse_jelly_flat  # noqa: PLC0415
+
+        conv = T.ev_from_generic
+    else:
+        from pyjelly.integrations.rdflib.parse import parse_jelly_flat  # noqa: PLC0415
+
+        conv = T.ev_from_rdflib
+    out: list = []
+    try:
+        options, frames = get_options_and_frames(src)
+        for item in parse_jelly_flat(src, frames=frames, options=options):
+            out.append(conv(item))
+    except Exception as e:  # noqa: BLE001
+        return out, type(e).__name__
+    return out, None
+
+
 def run_read_case(case: dict) -> str | None:
     entry = next(e for e in corpus.base_streams(case["corpus"]) if e["name"] == case["stream"])
     j = case["frames_delivered"]
@@ -390,7 +412,8 @@ def run_read_case(case: dict) -> str | None:
                     f"frame_metadata variable) had yielded {len(gs)} of their {len(ws)} statements "
                     f"before asking for more input ({exc})")
         return None
-    got, exc = consume_flat(case["api"], src)
+    fn = consume_flat_frames if case.get("reader") == "flat-frames" else consume_flat
+    got, exc = fn(case["api"], src)
     if got[: len(want)] != want:
         return (f"after frames 1..{j} ({limit} bytes) had arrived only {len(got)} of their "
                 f"{len(want)} items were yielded before the parser asked for more input "
@@ -407,8 +430,8 @@ def read_shard(job) -> dict:
             if api == "rdflib" and not entry["rdf11"]:
                 continue
             for sname, _ in read_sources(b"", 0):
-                for reader in ("flat", "grouped-meta") if sname in ("raw", "raw-chunk5",
-                                                                     "buffered") else ("flat",):
+                for reader in ("flat", "grouped-meta", "flat-frames") if sname in (
+                        "raw", "raw-chunk5", "buffered") else ("flat",):
                     case = {"side": "read", "corpus": size, "stream": entry["name"],
                             "frames_delivered": j, "source": sname, "api": api, "reader": reader}
                     acc.evals += 1
